@@ -216,32 +216,60 @@ public:
     (*this)[std::string(key)] = nostd::visit(converter_, value);
   }
 
-  // Compare the attributes of this map with another KeyValueIterable
+  // Compare the attributes of this map with another KeyValueIterable.
+  // The iterable is read the way the constructor reads it: it may repeat a key, and the last value
+  // given for a key is the one that counts.
   bool EqualTo(const opentelemetry::common::KeyValueIterable &attributes) const noexcept
   {
-    if (attributes.size() != this->size())
+    // An iterable with fewer pairs than this map has keys cannot cover it
+    if (attributes.size() < this->size())
     {
       return false;
     }
 
-    const bool is_equal = attributes.ForEachKeyValue(
+    // Every key of the iterable must be a key of this map.
+    // Perform a linear search to find the key assuming the map is small
+    // This avoids temporary string creation from this->find(std::string(key))
+    const bool keys_known = attributes.ForEachKeyValue(
         [this](nostd::string_view key,
-               const opentelemetry::common::AttributeValue &value) noexcept {
-          // Perform a linear search to find the key assuming the map is small
-          // This avoids temporary string creation from this->find(std::string(key))
+               const opentelemetry::common::AttributeValue & /* value */) noexcept {
           for (const auto &kv : *this)
           {
             if (kv.first == key)
             {
-              // Order of arguments is important here. OwnedAttributeValue is first then
-              // AttributeValue AttributeEqualToVisitor does not support the reverse order
-              return nostd::visit(equal_to_visitor_, kv.second, value);
+              return true;
             }
           }
           return false;
         });
+    if (!keys_known)
+    {
+      return false;
+    }
 
-    return is_equal;
+    // Every value of this map must equal the last value the iterable gives for its key
+    for (const auto &kv : *this)
+    {
+      bool found = false;
+      bool equal = false;
+      attributes.ForEachKeyValue(
+          [this, &kv, &found, &equal](nostd::string_view key,
+                                      const opentelemetry::common::AttributeValue &value) noexcept {
+            if (kv.first == key)
+            {
+              found = true;
+              // Order of arguments is important here. OwnedAttributeValue is first then
+              // AttributeValue AttributeEqualToVisitor does not support the reverse order
+              equal = nostd::visit(equal_to_visitor_, kv.second, value);
+            }
+            return true;
+          });
+      if (!found || !equal)
+      {
+        return false;
+      }
+    }
+    return true;
   }
 
 private:
